@@ -3,7 +3,7 @@ CONSTANTS
   Names = {"DYN0", "dyn0", "DYN1"}
   BuiltinToks = {"PLUS", "NOT", "INCREMENT", "LPAREN"}
   InfixLevels = {3, 7}
-  MaxCalls = 5
+  MaxCalls = 4
   Export = TRUE
 INVARIANT Inv
 PROPERTIES IdsStable RefusalChangesNothing
